@@ -230,7 +230,7 @@ where
         let (s, rs) = tape_of::<G, _>(&base, n);
         (VerifiableRsaEncryption::<G>::encrypt_with_proof(&x, keys.pk(key), label, sp, &mut pr).expect("honest proof"), s, rs)
     } else {
-        let cr = CraftedRng { inner: base, zeros };
+        let cr = CraftedRng { inner: base, zeros, calls: 0 };
         let mut pr = cr.clone();
         let (s, rs) = tape_of::<G, _>(&cr, n);
         (VerifiableRsaEncryption::<G>::encrypt_with_proof(&x, keys.pk(key), label, sp, &mut pr).expect("honest proof"), s, rs)
